@@ -538,6 +538,15 @@ fn workers_round(out: &mut Out, r: &mut Rng, nworkers: usize, nclients: usize, p
     barrier.wait();
     if burst {
         sp.signal(libc::SIGCONT);
+        // "regardless of how the threads are scheduled": while the workers chew through the queued burst, the whole
+        // process is descheduled for tens of milliseconds a few times (seeded change C18-r6 panicked when a call
+        // exceeded a wall-clock budget)
+        for k in 0..6u64 {
+            std::thread::sleep(Duration::from_millis(2 + k));
+            sp.signal(libc::SIGSTOP);
+            std::thread::sleep(Duration::from_millis(35));
+            sp.signal(libc::SIGCONT);
+        }
     }
     let mut all_pairs: Vec<(Vec<u8>, Vec<Vec<u8>>)> = vec![];
     let mut extras = 0usize;
